@@ -281,7 +281,12 @@ impl World {
         // identity clauses (C07, C18) are about.
         let reserve = self.force_reserve || (self.clients.len() + self.polls) % 2 == 0;
         let placeholders: Vec<std::fs::File> = if reserve { (0..2).filter_map(|_| std::fs::File::open("/dev/null").ok()).collect() } else { vec![] };
-        let s = UnixStream::connect(&self.path).expect("connect");
+        let (s, connected) = match UnixStream::connect(&self.path) {
+            Ok(s) => (s, true),
+            // the server is gone (a poll panicked and it was dropped): the scenario goes on with a stand-in that nobody
+            // listens to, so that the oracles at its end still run and report the panic with the history
+            Err(_) => (UnixStream::pair().expect("socketpair").0, false),
+        };
         drop(placeholders);
         // descriptor 0 becomes free only now: the client's socket has its number already, the server's accept gets 0
         drop(self.park0.take());
@@ -304,8 +309,13 @@ impl World {
             saw_eof: false,
             limit: None,
         });
-        self.backlog.push_back(i);
-        self.note(rec, &format!("client {} connect", i));
+        if connected {
+            self.backlog.push_back(i);
+            self.note(rec, &format!("client {} connect", i));
+        } else {
+            self.clients[i].misbehaved = true;
+            self.note(rec, &format!("client {} could not connect: the server is gone", i));
+        }
         i
     }
 
